@@ -247,6 +247,20 @@ def build(spec):
             return ok
         database.remove = logged_remove
 
+        # the instant at which the service starts to decide about one notification (process_notifications takes the
+        # service lock and looks the subscription up): a notification decided after a removal had completed is late
+        orig_pn = serv.process_notifications
+        pn_start = {}
+
+        def logged_pn(subscription, result):
+            ident = threading.get_ident()
+            pn_start[ident] = tick()
+            try:
+                return orig_pn(subscription, result)
+            finally:
+                pn_start.pop(ident, None)
+        serv.process_notifications = logged_pn
+
         def callback_for(key):
             def cb(resp):
                 enc = ctx.cur.get(threading.get_ident())
@@ -254,7 +268,7 @@ def build(spec):
                 for rec in resp.data_objects:
                     d = rec["dataObject"]
                     objs.append((d["header"]["stationId"], d["cam"]["generationDeltaTime"]))
-                ctx.cbs.append({"key": key, "t": tick(), "objs": objs, "op": enc})
+                ctx.cbs.append({"key": key, "t": tick(), "objs": objs, "op": enc, "pn": pn_start.get(threading.get_ident())})
             return cb
 
         # ---- initial state (sequential, main thread)
@@ -663,6 +677,10 @@ def judge(ctx, res):
         if k in removal_done and removal_done[k] < start:
             # dereg of a consumer that registered again afterwards does not bring subscriptions back either
             bad.append(("notification-after-completed-removal", f"subscription {k} removed at event {removal_done[k]}, notified in a pass started at {start}"))
+        elif k in removal_done and c.get("pn") is not None and removal_done[k] < c["pn"]:
+            res.count("notify.decided_after_removal_checked")
+            bad.append(("notification-decided-after-completed-removal", f"subscription {k} removed at event {removal_done[k]}; the pass had begun before, but this notification was "
+                        f"only decided at event {c['pn']}"))
         if k not in sub_call or c["t"] < sub_call[k]:
             bad.append(("notification-before-subscription", f"{k}"))
     sentinel = ctx.pre_sids[0]
